@@ -67,6 +67,15 @@ def refetch(ctx, R):
     in_test = any(isinstance(c.func, ast.Attribute) and c.func.attr == "mostViolated" for c in ast.walk(test) if isinstance(c, ast.Call))
     if in_test:
         R.ok("VPSC.REFETCH", "Solver.satisfy|loop test fetches", where(f, test), "the loop test itself calls mostViolated()")
+        # the fetched value must be what the test (and the body) examines: no other assignment to a walrus target
+        wt = [n.target.id for n in ast.walk(test) if isinstance(n, ast.NamedExpr) and isinstance(n.target, ast.Name)]
+        for n in cfg.loop_body(loop):
+            if n.kind == "stmt" and isinstance(n.ast, (ast.Assign, ast.AugAssign)):
+                tg = n.ast.targets if isinstance(n.ast, ast.Assign) else [n.ast.target]
+                if any(isinstance(t, ast.Name) and t.id in wt for t in tg):
+                    R.bad("VPSC.REFETCH", "Solver.satisfy|`%s`" % ntext(n.ast)[:50], where(f, n.ast), "the loop variable is assigned from something other than mostViolated()")
+            elif _has_call(n, lambda c: isinstance(c.func, ast.Attribute) and c.func.attr in ("merge", "insert", "remove", "splitBetween", "split", "mergeAcross")):
+                R.ok("VPSC.REFETCH", "Solver.satisfy|after `%s`" % ntext(n.ast)[:50], where(f, n.ast), "every path from this mutation to the next pass goes through the fetching test")
         return
     if not names:
         R.bad("VPSC.REFETCH", "Solver.satisfy|loop variable", where(f, test), "the merge loop's test examines no constraint variable")
@@ -126,7 +135,7 @@ def exit_rule(ctx, R):
     var = names[0] if names else "v"
     st.env.vars[var] = Opaque("V")
     if any(isinstance(n, ast.NamedExpr) for n in ast.walk(test)):
-        ev.on_call = lambda fv, args, kwargs, node, st_: Opaque("V") if key(fv).endswith("mostViolated") else None
+        ev.on_call = lambda fv, args, kwargs, node, st_: Opaque("V") if key(fv).rstrip(">").endswith("mostViolated") else None
     c = ev.cond(test, st)
     if not isinstance(c, Cond):
         R.bad("VPSC.EXIT", "Solver.satisfy|loop test", where(f, test), "loop test folds to %s" % show(c))
